@@ -153,6 +153,10 @@ pub enum Menu {
     Decls,
     /// client fields with parameters, selected with literal / variable / missing arguments (variable substitution through client fields)
     ClientArgs,
+    /// C25: one client field containing refetchable selections (`__refetch`, exposed mutation field, client pointer,
+    /// `@loadable` field, a second-level client field with its own refetchable selections) reused under several
+    /// parents with different sibling selections, at several positions, by two entrypoints
+    Reuse,
 }
 
 pub fn menu(ty: Ty, m: Menu) -> Vec<Atom> {
@@ -245,6 +249,18 @@ pub fn menu(ty: Ty, m: Menu) -> Vec<Atom> {
             c("fr4: Friends(n: 1) @loadable", "User.Friends"),
         ],
         (_, Menu::ClientArgs) => vec![a("id")],
+
+        (Ty::User, Menu::Reuse) => vec![
+            a("nick"),
+            a("__refetch"),
+            a("set_name"),
+            Atom { text: "bestPet", child: Some(Ty::Pet), vars: &[], needs: Some("User.bestPet") },
+            c("Leaf", "User.Leaf"),
+            c("ll: Leaf @loadable", "User.Leaf"),
+            o("bestFriend", Ty::User),
+        ],
+        (Ty::Pet, Menu::Reuse) => vec![a("name"), a("__refetch"), o("owner", Ty::User)],
+        (_, Menu::Reuse) => vec![a("id")],
 
         (Ty::Query, Menu::Cycles) => vec![o("me", Ty::User)],
         (Ty::User, Menu::Cycles) => vec![a("id"), c("A", "User.A"), c("B", "User.B"), o("bestFriend", Ty::User), c("B @loadable", "User.B")],
@@ -520,6 +536,27 @@ pub fn programs(m: Menu, k: usize) -> Vec<Program> {
                     decls.push(ep.clone());
                     out.push(Program { menu: m, decls });
                 }
+            }
+        }
+        return out;
+    }
+    if m == Menu::Reuse {
+        // UserChild ranges over every selection set with 1..=k nodes (nesting 2); everything else is fixed
+        let avail = ["User.bestPet", "User.Leaf"];
+        let fixed = vec![
+            Decl::Raw { export: "Root".into(), text: "field Query.Root($id: ID!) {\n  me {\n    name\n    UserChild\n  }\n  user(id: $id) {\n    nick\n    UserChild\n    Mid\n  }\n  users(first: 2) {\n    age\n    UserChild\n  }\n}".into() },
+            Decl::Raw { export: "Mid".into(), text: "field User.Mid {\n  kind\n  UserChild\n}".into() },
+            Decl::Raw { export: "Other".into(), text: "field Query.Other @component {\n  me {\n    homepage\n    UserChild\n    bestFriend {\n      UserChild\n    }\n  }\n}".into() },
+            Decl::Raw { export: "Leaf".into(), text: "field User.Leaf {\n  age\n  __refetch\n  bestPet {\n    id\n  }\n}".into() },
+            Decl::Raw { export: "bestPet".into(), text: "pointer User.bestPet to Pet {\n  pets {\n    __link\n  }\n}".into() },
+        ];
+        for n in 1..=k {
+            for set in selection_sets(Ty::User, m, n, 2, &avail) {
+                let mut decls = fixed.clone();
+                decls.push(Decl::Field { ty: Ty::User, name: "UserChild".into(), set, component: n % 2 == 0 });
+                decls.push(ep.clone());
+                decls.push(Decl::Entrypoint { ty: Ty::Query, name: "Other".into() });
+                out.push(Program { menu: m, decls });
             }
         }
         return out;
